@@ -199,6 +199,100 @@ fn crash_case(cfg: &Cfg, rec: &FlushRecord, vectors: &[[Vec<f32>; 2]], seed: u64
     r.map_err(|f| (f, phase))
 }
 
+/// ids of `model` that `h` returns for their own vector with k = n
+fn self_reachable(h: &Hnsw, model: &VecModel, tally: &mut Tally) -> Result<BTreeSet<u64>, Fail> {
+    let n = model.len().max(1);
+    let mut out = BTreeSet::new();
+    for (id, v) in &model.live {
+        tally.searches += 1;
+        let res = h.try_search(v, n).map_err(|e| Fail::new("search_error", format!("search({v:?}, {n}) failed: {e}")))?;
+        if res.iter().any(|(i, _)| i == id) {
+            out.insert(*id);
+        }
+    }
+    Ok(out)
+}
+
+/// Reopen under ONE read fault: the completely flushed image is restored,
+/// the j-th object-store call of `Hnsw::bootstrap` (GET of metadata / ids /
+/// a node blob, the LIST of the orphan sweep) fails before taking effect. A
+/// reopen that reports an error is retried once (must then succeed); a reopen
+/// that reports success must hold every flushed vector: full oracle + element
+/// count vs the documents, self-reachability not worse than after a
+/// fault-free reopen, and the same again after a further flush + bootstrap.
+/// Returns None when the bootstrap has fewer than j+1 calls.
+fn read_fault_case(cfg: &Cfg, rec: &FlushRecord, j: u64, tally: &mut Tally) -> Result<Option<String>, (Fail, &'static str, String)> {
+    let mut phase = "read_fault_reopen";
+    let mut label = String::new();
+    let r = no_panic(|| {
+        anda_db_utils::verif::set_random_seed(Some(99));
+        let mut content = rec.before.clone();
+        for m in &rec.journal {
+            apply(&mut content, m);
+        }
+        // fault-free reference reopen
+        let (store0, _) = CtlStore::over(restore(&content));
+        let storage0 = connect(store0)?;
+        let h0 = block_on(Hnsw::bootstrap(FIELD.to_string(), storage0)).map_err(|e| Fail::new("load_error", format!("Hnsw::bootstrap failed: {e}")))?;
+        let reach0 = self_reachable(&h0, &rec.current, tally)?;
+        drop(h0);
+
+        let (store, ctl) = CtlStore::over(restore(&content));
+        let storage = connect(store.clone())?;
+        ctl.keep_labels(true);
+        ctl.clear_labels();
+        let c0 = ctl.calls();
+        ctl.fail_call(c0 + j);
+        let a1 = block_on(Hnsw::bootstrap(FIELD.to_string(), storage.clone()));
+        if ctl.calls() - c0 <= j {
+            ctl.reset_faults();
+            a1.map_err(|e| Fail::new("load_error", format!("fault-free Hnsw::bootstrap failed: {e}")))?;
+            return Ok(false);
+        }
+        let l = &ctl.labels()[j as usize];
+        label = format!("{} {}", l.op, l.path);
+        let h = match a1 {
+            Ok(h) => h,
+            Err(_) => block_on(Hnsw::bootstrap(FIELD.to_string(), storage.clone()))
+                .map_err(|e| Fail::new("reopen_retry_failed", format!("the retry of Hnsw::bootstrap after one read error failed: {e}")))?,
+        };
+        phase = "after_read_fault_reopen";
+        check(&h, cfg, &rec.current, None, tally)?;
+        let reach = self_reachable(&h, &rec.current, tally)?;
+        let lost: Vec<u64> = reach0.difference(&reach).copied().collect();
+        if !lost.is_empty() {
+            return Err(Fail::new("unreachable_after_reopen", format!("ids {lost:?} are found by their own vector after a fault-free reopen but not after the reopen that met one read error")));
+        }
+        phase = "after_read_fault_reflush";
+        block_on(h.flush(20_001)).map_err(|e| Fail::new("flush_error", format!("Hnsw::flush after reopen failed: {e}")))?;
+        let h2 = block_on(Hnsw::bootstrap(FIELD.to_string(), storage.clone())).map_err(|e| Fail::new("load_error", format!("second Hnsw::bootstrap failed: {e}")))?;
+        check(&h2, cfg, &rec.current, None, tally)?;
+        Ok(true)
+    });
+    match r {
+        Ok(true) => Ok(Some(label)),
+        Ok(false) => Ok(None),
+        Err(f) => Err((f, phase, label)),
+    }
+}
+
+fn read_fault_violation(cfg: &Cfg, base: &str, seed: u64, ops: &[Op], j: u64, phase: &str, label: &str, f: &Fail) -> Violation {
+    let op = label.split(' ').next().unwrap_or("call");
+    Violation {
+        signature: format!("C12|wrapper|{}|{}|fault_on_{}", f.kind, phase, if op.is_empty() { "call" } else { op }),
+        summary: format!(
+            "[{}] base {} layer-seed {} history [{}] through anda_db::index::Hnsw, complete flush, then reopen with object-store call #{j} of Hnsw::bootstrap ({label}) failing once; phase {}: {}",
+            cfg.label(),
+            base,
+            seed,
+            ops_short(ops),
+            phase,
+            f.detail
+        ),
+        replay: json!({"cfg": cfg, "base": base, "seed": seed, "ops": ops, "k": null, "read_fault": j}),
+    }
+}
+
 /// base + ops through the wrapper, the oracle after every step; then the
 /// journalled final flush.
 fn history(cfg: &Cfg, base: &str, seed: u64, ops: &[Op], tally: &mut Tally) -> Result<(FlushRecord, Vec<[Vec<f32>; 2]>), Fail> {
@@ -245,11 +339,13 @@ fn violation(cfg: &Cfg, base: &str, seed: u64, ops: &[Op], rec: Option<&FlushRec
 struct Agg {
     histories: u64,
     cases: u64,
+    read_fault_cases: u64,
     searches: u64,
     max_journal: usize,
     distinct: BTreeSet<u64>,
     violations: Vec<Violation>,
     sample: Option<serde_json::Value>,
+    fault_sample: Option<serde_json::Value>,
     complete: bool,
 }
 
@@ -289,6 +385,35 @@ fn run_item(item: &Item, deadline: Instant) -> Agg {
                 push_violation(&mut agg, violation(&item.cfg, item.base, item.seed, ops, Some(&rec), k, phase, &f));
             }
         }
+        // one read fault at every call of the reopen of the completely flushed image
+        for j in 0u64.. {
+            let mut tally = Tally::default();
+            let r = read_fault_case(&item.cfg, &rec, j, &mut tally);
+            agg.searches += tally.searches;
+            match r {
+                Ok(None) => break,
+                Ok(Some(l)) => {
+                    agg.read_fault_cases += 1;
+                    agg.distinct.insert(util::fnv64(format!("{label}|{mk}|readfault|{j}").as_bytes()));
+                    if agg.fault_sample.is_none() && l.contains("/n_") && !rec.current.is_empty() {
+                        agg.fault_sample = Some(json!({
+                            "cfg": label, "base": item.base, "history": ops_short(ops), "reopen_call_failed_once": format!("#{j}: {l}"),
+                            "live_vectors_required_after_reopen": rec.current.live.keys().collect::<Vec<_>>(),
+                        }));
+                    }
+                }
+                Err((f, phase, l)) => {
+                    agg.read_fault_cases += 1;
+                    push_violation(&mut agg, read_fault_violation(&item.cfg, item.base, item.seed, ops, j, phase, &l, &f));
+                    if l.is_empty() {
+                        break; // failed before the fault was placed
+                    }
+                }
+            }
+            if j > 64 {
+                break;
+            }
+        }
         if agg.sample.is_none() && rec.journal.iter().any(|m| matches!(m, Mutation::Delete { .. })) && !rec.committed.is_empty() {
             agg.sample = Some(json!({
                 "cfg": label, "base": item.base, "layer_seed": item.seed, "history": ops_short(ops),
@@ -318,6 +443,14 @@ fn main() {
             Err(f) => {
                 println!("replay [{}] base {} seed {} [{}] -> {:?}", cfg.label(), base, seed, ops_short(&ops), f);
                 run.violation(violation(&cfg, &base, seed, &ops, None, 0, "history", &f));
+            }
+            Ok((rec, _)) if r["read_fault"].is_u64() => {
+                let j = r["read_fault"].as_u64().unwrap();
+                let res = read_fault_case(&cfg, &rec, j, &mut tally);
+                println!("replay [{}] base {} seed {} [{}] reopen with call #{j} failing once -> {:?}", cfg.label(), base, seed, ops_short(&ops), res);
+                if let Err((f, phase, l)) = res {
+                    run.violation(read_fault_violation(&cfg, &base, seed, &ops, j, phase, &l, &f));
+                }
             }
             Ok((rec, vectors)) => {
                 let ks: Vec<usize> = match r["k"].as_u64() {
@@ -365,10 +498,12 @@ fn main() {
         let aggs: Vec<Agg> = util::par_map(work, util::n_threads(), |item| run_item(&item, deadline));
         let mut complete = true;
         let mut sampled = false;
+        let mut fault_sampled = false;
         for a in aggs {
             complete &= a.complete;
             run.add("histories", a.histories);
             run.add("crash_cases", a.cases);
+            run.add("read_fault_reopens", a.read_fault_cases);
             run.add("evaluations", a.searches);
             max_journal = max_journal.max(a.max_journal);
             for k in a.distinct {
@@ -381,6 +516,12 @@ fn main() {
                 if !sampled {
                     run.sample(s);
                     sampled = true;
+                }
+            }
+            if let Some(s) = a.fault_sample {
+                if !fault_sampled {
+                    run.sample(s);
+                    fault_sampled = true;
                 }
             }
         }
@@ -398,7 +539,10 @@ fn main() {
         "histories as in parts hist/crash but executed through anda_db::index::Hnsw over Storage over a journalling in-memory object \
          store; the soundness oracle runs after every step; the final Hnsw::flush is journalled at the object store and for every k the \
          store content 'before + journal[0..k]' is restored into a fresh store, Hnsw::bootstrap (load_all + purge_orphan_node_blobs) must \
-         succeed, soundness after load / after the database's recovery / after a further flush + bootstrap; evaluations = searches compared",
+         succeed, soundness after load / after the database's recovery / after a further flush + bootstrap; READ FAULTS: the completely \
+         flushed image is reopened once per object-store call j of Hnsw::bootstrap with call j failing (ErrBefore), an erroring reopen is \
+         retried once, a reopen that reports success must hold every flushed vector (oracle + count, self-reachability not worse than a \
+         fault-free reopen), also after a further flush + bootstrap; evaluations = searches compared",
     );
     run.assume("each object-store mutation is atomic; Storage with its default configuration; single writer");
     run.finish();
